@@ -7,11 +7,13 @@ import tpcommon as T
 from engine import Op, set_mode
 
 PROP = "C11"
-LEAN_MODULES = ["IsoDT.Props.C11"]
+LEAN_MODULES = ["IsoDT.Props.C11", "IsoDT.Props.C11q"]
 RULE = ("pairs / triples of Durations in week form and unit form, mixed signs, unit-boundary magnitudes "
         "(7 d, 24 h, 60 min, 60 s, 365/360 d, 30 d) and integer multipliers; non-trivial when the operands "
         "spell their length in different units or forms; distinct by (op, arguments)")
-ASSUMPTIONS = ["integer components are proved; decimal components are only observed, within float tolerance"]
+ASSUMPTIONS = ["integer components are proved (Props/C11); fractional hours / minutes / seconds are proved over exact "
+               "rationals (Props/C11q) and that model is tied to the float implementation on dyadic inputs, where binary64 "
+               "is exact (op durq); other decimal components are observed within float tolerance (op dfloat)"]
 
 UNIT_SEC = {"d": 86400, "h": 3600, "m": 60, "s": 1}
 
@@ -448,6 +450,79 @@ class DFloat(Op):
             return "decimal durations %r, %r, n=%d in %s: %s off beyond tolerance" % (a[1], a[2], a[3], a[0], out)
 
 
+class DurQ(Op):
+    """The rational model `DurationQ` (Props/C11q) against the implementation on durations whose hours / minutes /
+    seconds are dyadic fractions (binary64 is exact there, so the comparison is exact), 18 operations; plus the
+    property's own clauses on the implementation's answers, evaluated with exact Fractions."""
+    prop = PROP
+    name = "durq"
+
+    def gen(self, rng, tier, boost):
+        n = (3000 if tier == "quick" else 60000) * boost
+        if getattr(self, "shard", None):
+            n = n // self.shard[1] + 1
+        for _ in range(n):
+            yield (gens.mode(rng), rng.getrandbits(40))
+
+    def line(self, a):
+        import durq
+        return durq.line_of(a[1], a[0])
+
+    def impl(self, a):
+        import durq
+        set_mode(a[0])
+        return durq.evaluate(a[1], a[0])[1]
+
+    @staticmethod
+    def _key(m, d):
+        """(years, months, exact seconds) and the rough length in seconds."""
+        if d[0] == "W":
+            y = mo = 0
+            secs = Fraction(d[1] * 7 * 86400)
+        else:
+            _, y, mo, dd, h, mi, sec = d
+            secs = Fraction(dd * 86400) + h * 3600 + mi * 60 + sec
+        return (y, mo, secs), (y * oracle.year_len(m, 1) + mo * 30) * 86400 + secs
+
+    def oracle(self, a, out):
+        import durq
+        m = a[0]
+        op, args = durq.case(a[1])
+        line = self.line(a)
+        if out.startswith(("EXC", "Timeout")):
+            return "%s raised %s" % (line, out)
+        if op in ("deqq", "dhasheqq", "dcmpq"):
+            (ka, ra), (kb, rb) = self._key(m, args[0]), self._key(m, args[1])
+            if op == "deqq" and out != ("1" if ka == kb else "0"):
+                return "%s: == gives %s, (years, months, exact length) are %s" % (line, out, "equal" if ka == kb else "different")
+            if op == "dhasheqq" and ka == kb and out != "1":
+                return "%s: equal durations hash differently" % line
+            if op == "dcmpq":
+                want = " ".join("1" if v else "0" for v in (ra < rb, ra <= rb, ra > rb, ra >= rb))
+                if out != want:
+                    return "%s: < <= > >= give %s, the lengths (year = common year, month = 30 d) say %s" % (line, out, want)
+        if op in ("daddq", "dsubq", "dmulq") and out[:1] in "UW":
+            f = out.split()
+            if f[0] == "W":
+                got = ((0, 0, Fraction(f[1]) * 7 * 86400))
+            else:
+                v = [Fraction(x) for x in f[1:]]
+                got = (v[0], v[1], v[2] * 86400 + v[3] * 3600 + v[4] * 60 + v[5])
+            ka = self._key(m, args[0])[0]
+            if op == "dmulq":
+                want = tuple(x * args[1] for x in ka)
+            else:
+                kb = self._key(m, args[1])[0]
+                sg = 1 if op == "daddq" else -1
+                want = tuple(x + sg * y for x, y in zip(ka, kb))
+            if tuple(got) != tuple(want):
+                return "%s: result %s has (years, months, exact seconds) %s, expected %s" % (line, out, got, want)
+
+    def label(self, a):
+        import durq
+        return "durq/%s/%s" % (a[0], durq.case(a[1])[0])
+
+
 def ops():
-    return [DAdd(), DAssoc(), DMul(), DEq(), DHashEq(), DCmp(), DUnary(), DSecs(), DMisc(), DToDays(),
+    return [DurQ(), DAdd(), DAssoc(), DMul(), DEq(), DHashEq(), DCmp(), DUnary(), DSecs(), DMisc(), DToDays(),
             DToWeeks(), DBool(), DFloorDiv(), DMk(), DFloat()]
